@@ -139,7 +139,7 @@ func propC13(w *World, r *Report) {
 			switch {
 			case wr.kind == "int<-float" && (rd.getter == "getFloat" || rd.getter == "getDeltaF16"):
 				bad = fmt.Sprintf("%s is written as int32(<float64 value>) — the fraction is cut off — but read back with %s as a real number at %s", wr.op, rd.getter, w.Pos(rd.pos))
-			case wr.kind == "float" && rd.getter == "getInt":
+			case (wr.kind == "float" || wr.kind == "number") && rd.getter == "getInt":
 				bad = fmt.Sprintf("%s is written as a real but read back with getInt at %s, which ignores reals and returns the default", wr.op, w.Pos(rd.pos))
 			case wr.kind == "string" && rd.getter != "getString":
 				bad = fmt.Sprintf("%s is written as a string but read with %s", wr.op, rd.getter)
@@ -204,7 +204,7 @@ func sliceElemKinds(v ssa.Value) []string {
 			}
 			mi, ok := st.Val.(*ssa.MakeInterface)
 			if !ok {
-				kinds = append(kinds, "other")
+				kinds = append(kinds, callResultKind(st.Val))
 				continue
 			}
 			kinds = append(kinds, valueKind(mi.X))
@@ -244,6 +244,55 @@ func valueKind(x ssa.Value) string {
 			v = cv.X
 		}
 		return "int"
+	}
+	return "other"
+}
+
+
+// callResultKind: an interface value produced by a helper such as
+// dictNumber: "number" when the helper can return an int32 or a float64
+// (an integer where possible, a real otherwise), else "other".
+func callResultKind(v ssa.Value) string {
+	call, ok := v.(*ssa.Call)
+	if !ok {
+		return "other"
+	}
+	callee := call.Call.StaticCallee()
+	if callee == nil || callee.Blocks == nil {
+		return "other"
+	}
+	kinds := map[string]bool{}
+	for _, b := range callee.Blocks {
+		ret, ok := b.Instrs[len(b.Instrs)-1].(*ssa.Return)
+		if !ok || len(ret.Results) != 1 {
+			continue
+		}
+		var visit func(x ssa.Value, depth int)
+		visit = func(x ssa.Value, depth int) {
+			if depth > 4 {
+				kinds["other"] = true
+				return
+			}
+			switch y := x.(type) {
+			case *ssa.MakeInterface:
+				kinds[valueKind(y.X)] = true
+			case *ssa.Phi:
+				for _, e := range y.Edges {
+					visit(e, depth+1)
+				}
+			default:
+				kinds["other"] = true
+			}
+		}
+		visit(ret.Results[0], 0)
+	}
+	if kinds["float"] && !kinds["other"] && !kinds["string"] {
+		return "number"
+	}
+	if len(kinds) == 1 {
+		for k := range kinds {
+			return k
+		}
 	}
 	return "other"
 }
